@@ -49,14 +49,22 @@ def run(tier, rep):
         layers, phases, deadline = 'A,B1', 1, 300
     else:
         layers, phases, deadline = 'A,B2,C', 2, 1500
-    res, d = dxlib.run_dx('plain', grid(), 'c02', layers, 'ref', phases=phases, deadline=deadline)
+    # pass 1 (always complete): the whole request grid, acceptance + initialisation + edge coverage (+ one forced deviate)
+    res, d = dxlib.run_dx('plain', grid(), 'c02', 'A,B1', 'ref', phases=1, deadline=1200)
     accepted = [r for r in res if r.get('ref_ier') == 0 and not (r['config']['mode'] == 20 and r['config']['level'] >= 1)]
-    if len(accepted) < 1000:
+    if len(accepted) < 1000 and not dxlib.SKIPPED:
         raise SystemExit('HARNESS-ERROR: the reference model accepts only %d double-beta configurations' % len(accepted))
+    deep = []
+    if tier != 'quick':
+        # pass 2 (deadline-bounded; what is not reached is reported, the run is then marked non-exhaustive): two forced
+        # deviates and all discrete paths on every accepted configuration, ground states first
+        acc_lines = ['dbd %s %d %d' % (r['config']['name'], r['config']['level'], r['config']['mode'])
+                     for r in sorted(accepted, key=lambda r: (r['config']['level'], r['config']['name'], r['config']['mode'])) if 'crashed' not in r]
+        deep, dd = dxlib.run_dx('plain', acc_lines, 'c02d', 'B2,C', 'ref', phases=2, deadline=1800)
     wcfg = window_cfgs(res)
     if tier == 'quick':
         wcfg = [w for i, w in enumerate(wcfg) if i % 4 == vlib.SEED % 4]
-    res2, d2 = dxlib.run_dx('plain', wcfg, 'c02w', layers if tier == 'quick' else 'A,B1', 'ref', phases=1, deadline=deadline)
+    res2, d2 = dxlib.run_dx('plain', wcfg, 'c02w', 'A,B1', 'ref', phases=1, deadline=600)
     # re-initialisation chains on the same working objects (plumbing API, same bbpars, no reset): predecessor = the same
     # isotope's ground-state/no-window configuration (or another mode), then the configuration itself
     chain = []
@@ -75,13 +83,13 @@ def run(tier, rep):
         if i % 3 == 0:
             t = w.split()
             chain.append('%s PRE dbd %s %s %s -1 -1' % (w, t[1], t[2], t[3]))
-    res3, d3 = dxlib.run_dx('plain', chain, 'c02c', 'A' if tier == 'quick' else 'A,B1', 'ref', phases=1, deadline=deadline)
+    res3, d3 = dxlib.run_dx('plain', chain, 'c02c', 'A' if tier == 'quick' else 'A,B1', 'ref', phases=1, deadline=600)
     rep.coverage['reinitialisation_chains'] = len(res3)
-    c01.aggregate(rep, res + res2 + res3, True, ('ref',), 'genbbsub',
+    c01.aggregate(rep, res + deep + res2 + res3, True, ('ref',), 'genbbsub',
                   'configurations = every (isotope, level 0..17, mode 1..20) the reference GENBBsub accepts (grid of %d requests enumerated, acceptance '
                   'compared on each) plus energy windows on the window-capable modes; per configuration: same initialisation stream on both sides '
                   '(toallevents, deviates consumed and the 4300-bin first-lepton spectrum table compared), then layers %s of the deviate explorer '
-                  'over bb + de-excitation cascade + alpha chains, every execution replayed on model and port' % (len(res), layers))
+                  'over bb + de-excitation cascade + alpha chains, every execution replayed on model and port' % (len(res), 'A+B1' if tier == 'quick' else 'A+B1 on the whole grid, then B2+C (two streams) on every accepted configuration within a 1800 s budget'))
     rep.coverage['grid_requests'] = len(res)
     rep.coverage['reference_accepted'] = len(accepted)
     rep.coverage['window_configurations'] = len(res2)
